@@ -7,6 +7,9 @@ Call monitors (attached in place, so the calls dose_filter makes itself are judg
                 doses (array, list, one-value-per-line text, csv, xml, mdoc) and the output order are read independently.
   gain_file     post(tiltstack.dose_filter) with output_file: the written MRC file, parsed from bytes, obeys the same equation.
   gain_single   post(tiltstack.dose_filter_single_image): DFT2(result) = DFT2(image) * g(freq_array re-indexed to DFT layout, dose).
+  gain_small_dose  the same equation for float64 calls with dose <= 1, judged on the CHANGE: DFT2(out) - DFT2(in) against
+                (g - 1) * DFT2(in), tolerance 1e-6 of the largest predicted change plus the FFT round-trip floor - so that a
+                1e-4-relative (or 1e-10-relative) effect of a tiny dose is not hidden behind the image's own amplitude.
 Driver-side relational monitors (results of real calls only; no DFT except in `power` and `monotone`):
   dc_mean       the mean of every image is unchanged
   plane_wave    a pure plane wave (plus constant) comes back as constant + g(k) * wave, compared pixel by pixel
@@ -16,6 +19,11 @@ Driver-side relational monitors (results of real calls only; no DFT except in `p
   monotone      larger dose for an image => no bin grows, and every excited non-DC bin shrinks
   composition   filter(filter(X, d1), d2) = filter(X, d1 + d2)
   order_equiv   the same stack handed over in the other axis order / as file gives the same images
+  history_fresh three/four-step histories on caller-owned arrays mutated in place between calls (stack, doses, then pixel
+                size): every call equals a fresh call on copies of the current values (and is judged by gain_stack)
+Planted values (every run): consecutive near-equal doses (relative gaps 1e-9..1e-5, both orders, exact repeats, identical
+images), tiny positive doses 5e-324..1e-2 around 1e-3, sizes 2^k-1/2^k/2^k+1, unusual text forms of doses, and in `extra`
+the full grid dose source x input order x output order x stack source x output file (three content variants).
 """
 import os
 
@@ -30,13 +38,18 @@ RULE = ("cases = generated tilt stacks (1..10 images, independent H, W in 4..64 
         "0.5..10 A, per-image doses 0..300 in any order, handed over as array/list/text/csv/xml/mdoc; random images, pure plane "
         "waves, impulses, constants; both axis orders, array and MRC-file stacks); non-trivial = at least one image with "
         "dose > 0 that is not constant (so the filter has to change it); distinct by digest of (n, H, W, dtype, pixel, doses, "
-        "orders, content kinds, dose source, stack source, first pixels)")
+        "orders, content kinds, dose source, stack source, first pixels); planted in every run: consecutive near-equal doses, "
+        "doses in (0, 1e-2], 2^k+-1 sizes, in-place mutation histories")
 ASSUMPTIONS = [
     "x is the axis of length W (first axis of an 'xyz' array, last axis of a 'zyx' array / MRC section), y the axis of length H",
     "frequency of DFT bin k on an axis of n samples is k/(n*pixel) with k the signed index (0..ceil(n/2)-1, then negative); "
     "for even n the Nyquist bin has |k| = n/2",
     "tolerance: 1e-10 (float64 stacks) / 1e-4 (float32 stacks) times the largest |DFT bin| (spectral clauses) or largest "
     "|pixel| (spatial clauses) of the image concerned",
+    "gain_small_dose: tolerance 1e-6 * max|(g-1) DFT2(in)| + 2e-13 * max|DFT2(in)| (measured round-trip noise of the real code "
+    "plus the oracle's matrix DFT: 2.2e-15), float64 calls with dose <= 1 only",
+    "strict 'more dose attenuates more' for dose steps below 1 is judged on the summed non-DC power of white-spectrum images "
+    "(noise/impulse/counts), float64, steps >= 1e-8 absolute (identical images inside one stack: relative gap >= 1e-9 of a dose >= 5)",
     "dose files hold values that are exact in float32 (multiples of 1/64), so the loader's float32 parsing is not judged here",
     "mdoc doses: PriorRecordDose + ExposureDose per section, paired with images in ascending tilt-angle order (tilt angles "
     "without ties); the DateTime-ranked fallback of total_dose_load (no PriorRecordDose) is not exercised",
@@ -47,7 +60,11 @@ ASSUMPTIONS = [
 CLASSES = ["random_f64", "random_f32", "plane_wave_f64", "plane_wave_f32", "plane_axis_nyquist", "parity_nonsquare",
            "extreme_aspect", "min_size", "max_size", "n1", "n10", "dose_unsorted", "dose_zero_mix", "dose_textfile",
            "dose_mdoc", "dose_csv", "dose_xml", "dose_list_int", "stack_file", "pixel_extreme", "impulse_const",
-           "mixed_content"]
+           "mixed_content", "dose_near_equal", "dose_tiny", "pow2_sizes", "history_inplace"]
+WHITE = ("normal", "impulse", "counts")
+FLOOR = 2e-13
+TINY_POOL = [1e-9, 5e-9, 1e-8, 1e-7, 1e-6, 3e-6, 1e-5, 1e-4, 6e-4, 9e-4, 9.99e-4, float(np.nextafter(1e-3, 0)), 1e-3,
+             float(np.nextafter(1e-3, 1)), 1.2e-3, 5e-3, 1e-2, 5e-324, 1e-45, 1e-300, 1e-12, 6e-4, 9e-4, 1e-6]
 REL = {"float64": 1e-10, "float32": 1e-4}
 ORDERS = ("xyz", "zyx")
 # the oracle's DFT is a 64x64 complex matrix product: BLAS worker threads only cost time on a shared machine
@@ -58,13 +75,13 @@ def plan(tier):
     k = len(CLASSES)
     if tier == "quick":
         return dict(n_cases=11 * k, shards=2, classes=CLASSES, timeout_s=600, env=ENV,
-                    min_evals={"gain_stack": 7000, "gain_single": 2000, "gain_file": 30, "dc_mean": 1200, "plane_wave": 150,
-                               "zero_dose": 200, "linearity": 200, "power": 900, "monotone": 900, "composition": 200,
-                               "order_equiv": 200})
+                    min_evals={"gain_stack": 8000, "gain_single": 2000, "gain_small_dose": 1500, "gain_file": 100, "dc_mean": 1400,
+                               "plane_wave": 150, "zero_dose": 240, "linearity": 240, "power": 1000, "monotone": 1000,
+                               "composition": 240, "order_equiv": 240, "history_fresh": 30})
     return dict(n_cases=260 * k, shards=12, classes=CLASSES, timeout_s=3000, env=ENV,
-                min_evals={"gain_stack": 150000, "gain_single": 40000, "gain_file": 700, "dc_mean": 25000, "plane_wave": 2500,
-                           "zero_dose": 5000, "linearity": 5000, "power": 25000, "monotone": 25000, "composition": 5000,
-                           "order_equiv": 5000})
+                min_evals={"gain_stack": 180000, "gain_single": 45000, "gain_small_dose": 35000, "gain_file": 1000, "dc_mean": 30000,
+                           "plane_wave": 2500, "zero_dose": 6000, "linearity": 6000, "power": 28000, "monotone": 28000,
+                           "composition": 6000, "order_equiv": 6000, "history_fresh": 700})
 
 
 # ---- quantifier ---------------------------------------------------------------------------------
@@ -91,6 +108,27 @@ def _spectral_check(FX, FY, G, rel):
                    "expected_gain": float(G[ky, kx]), "abs_error": worst, "tolerance": tol,
                    "n_bins_wrong": int((diff > tol).sum()), "n_bins": int(diff.size),
                    "dc_ratio": (float(np.real(FY[0, 0] / FX[0, 0])) if abs(FX[0, 0]) > 0 else None)}
+
+
+def _small_dose_check(ctx, FX, FY, G, dose, base):
+    """float64, dose <= 1: judge the change DFT2(out) - DFT2(in) against (g - 1) DFT2(in)."""
+    if not np.all(np.isfinite(FY)):
+        ctx.check("gain_small_dose", False, dict(base, what="non-finite values in the filtered image"))
+        return
+    pred = (G - 1.0) * FX
+    scale = float(np.abs(FX).max())
+    tol = 1e-6 * float(np.abs(pred).max()) + FLOOR * scale
+    diff = np.abs((FY - FX) - pred)
+    worst = float(diff.max())
+    if worst <= tol:
+        ctx.check("gain_small_dose", True)
+        return
+    ky, kx = np.unravel_index(int(np.argmax(diff)), diff.shape)
+    H, W = diff.shape
+    ctx.check("gain_small_dose", False, dict(base, dose=float(dose), bin_ky_kx=[int(orc.dft_index(H)[ky]), int(orc.dft_index(W)[kx])],
+                                             predicted_relative_change=float(G[ky, kx] - 1.0),
+                                             observed_relative_change=(float(np.real((FY[ky, kx] - FX[ky, kx]) / FX[ky, kx])) if abs(FX[ky, kx]) > 0 else None),
+                                             abs_error=worst, tolerance=tol, largest_input_bin=scale, n_bins_wrong=int((diff > tol).sum())))
 
 
 # ---- call monitor: dose_filter --------------------------------------------------------------------
@@ -157,6 +195,8 @@ def _df_post(ctx, A, old, result):
     for z in range(n):
         ok, w = _spectral_check(FX[z], FY[z], G[z], rel)
         ctx.check("gain_stack", ok, None if ok else dict(base, image=z, dose=float(d[z]), doses=d, **w))
+        if old["dtype"] == "float64" and d[z] <= 1.0:
+            _small_dose_check(ctx, FX[z], FY[z], G[z], d[z], dict(base, image=z, doses=d))
     if old["out_file"] is not None:
         pm = files.parse_mrc(old["out_file"]) if os.path.isfile(old["out_file"]) else {"error": "file not written"}
         if "error" in pm or tuple(pm["dims"]) != (W, H, n):
@@ -202,8 +242,11 @@ def _si_post(ctx, A, old, result):
                                              got=str(getattr(result, "shape", None)), got_dtype=str(getattr(result, "dtype", None))))
         return
     G = orc.gain_of_f(old["f"], old["dose"])
-    ok, w = _spectral_check(orc.dft2(X), orc.dft2(np.asarray(result, dtype=np.float64)), G, REL[old["dtype"]])
+    FX, FY = orc.dft2(X), orc.dft2(np.asarray(result, dtype=np.float64))
+    ok, w = _spectral_check(FX, FY, G, REL[old["dtype"]])
     ctx.check("gain_single", ok, None if ok else dict(base, **w))
+    if old["dtype"] == "float64" and old["dose"] <= 1.0:
+        _small_dose_check(ctx, FX, FY, G, old["dose"], dict(base, function="dose_filter_single_image"))
 
 
 def setup(ctx):
@@ -211,7 +254,7 @@ def setup(ctx):
     ctx.ts = tiltstack
     f_single = monitors.wrap(ctx, tiltstack, "dose_filter_single_image", "gain_single", _si_post, _si_applicable, _si_snapshot)
     f_stack = monitors.wrap(ctx, tiltstack, "dose_filter", "gain_stack", _df_post, _df_applicable, _df_snapshot)
-    ctx.declare("gain_file", "dc_mean", "plane_wave", "zero_dose", "linearity", "power", "monotone", "composition", "order_equiv")
+    ctx.declare("gain_small_dose", "history_fresh", "gain_file", "dc_mean", "plane_wave", "zero_dose", "linearity", "power", "monotone", "composition", "order_equiv")
     monitors.trace(ctx, [
         ("tiltstack.dose_filter", f_stack, {"per_tilt": "dose_filter_single_image(image",
                                             "write_out": "ts.write_out(output_file)"}),
@@ -318,6 +361,56 @@ def _mdoc_text(rng, n):
     return eol.join(lines) + eol, (e + prior)[order]
 
 
+def _plant_pair(rng, doses, j, direction):
+    """make doses[j+1] near-equal to doses[j]: relative gap log-uniform in 1e-9..9e-6 (inside np.isclose's default window),
+    upwards (+1), downwards (-1) or an exact repeat (0) -> (j, j+1, identical images?)"""
+    eps = float(10.0 ** rng.uniform(-9, -5.05))
+    doses[j + 1] = min(doses[j] * (1.0 + direction * eps), 300.0)
+    return (j, j + 1, bool(rng.random() < 0.7))
+
+
+def _dose_text(rng, src, doses, rep):
+    """text of a dose file of kind `src` holding `doses` -> (text, csv description)"""
+    n = len(doses)
+    if src == "text":
+        style_t = rep % 6
+        rows = ["%.6f" % v for v in doses]
+        if style_t == 1:
+            rows = ["  " + r for r in rows]
+        if style_t == 3:
+            rows = [("%d" % v) if float(v).is_integer() else ("%.6f" % v) for v in doses]
+        if style_t in (4, 5):                                      # unusual but exact text forms of the same numbers
+            rows = []
+            for v in doses:
+                v = float(v)
+                forms = ["%.6e" % v if float("%.6e" % v) == v else "%.6f" % v, "%.6f" % v, ("%.6f" % v).rstrip("0")]
+                if v.is_integer():
+                    forms += ["%d." % v, "+%d" % v, "%dE0" % v, "%d" % v]
+                if 0 < v < 1:
+                    forms += [("%.6f" % v).rstrip("0")[1:]]       # .5
+                f = forms[int(rng.integers(0, len(forms)))]
+                rows.append(f if float(f) == v else "%.6f" % v)
+        return "\n".join(rows) + ("" if style_t == 2 else "\n"), None
+    if src == "csv":
+        with_removed = rep % 3 != 0
+        nrem = int(rng.integers(1, 4)) if with_removed and rep % 3 == 1 else 0
+        flags = np.array([False] * n + [True] * nrem)
+        flags = flags[rng.permutation(n + nrem)]
+        vals = np.zeros(n + nrem)
+        vals[~flags] = doses
+        vals[flags] = _q64(rng.uniform(0, 300, nrem))
+        hdr = ",TiltAngle,CorrectedDose" + (",Removed" if with_removed else "")
+        rows = [hdr]
+        for j in range(n + nrem):
+            rows.append("%d,%.2f,%.6f" % (j, -30 + 3.0 * j, vals[j]) + ((",%s" % bool(flags[j])) if with_removed else ""))
+        return "\n".join(rows) + "\n", {"removed_rows": int(nrem), "removed_column": bool(with_removed)}
+    if src == "xml":
+        return ("<?xml version=\"1.0\" encoding=\"utf-8\"?>\n<TiltSeries AreAnglesInverted=\"False\" PlaneNormal=\"0, 0, 1\">\n  <Angles>\n"
+                + "\n".join("%.2f" % (-30 + 3.0 * j) for j in range(n)) + "\n  </Angles>\n  <Dose>\n" + "\n".join("%.6f" % v for v in doses)
+                + "\n  </Dose>\n</TiltSeries>\n"), None
+    raise ValueError(src)
+
+
 def gen(ctx, i, cls):
     rng = ctx.rng(i)
     rep = i // len(CLASSES)
@@ -404,6 +497,27 @@ def gen(ctx, i, cls):
         kinds[int(rng.integers(0, n))] = "impulse"
     elif cls == "mixed_content":
         kinds = [str(rng.choice(["normal", "counts", "plane", "impulse", "const", "checker", "ramp"])) for _ in range(n)]
+    elif cls == "dose_near_equal":
+        dtype = "float64"
+        n = int(rng.integers(3, 11))
+        kinds = [str(rng.choice(WHITE)) for _ in range(n)]
+    elif cls == "dose_tiny":
+        dtype = "float64" if rep % 4 else "float32"
+        n = int(rng.integers(2, 11))
+        kinds = [str(rng.choice(["normal", "impulse", "plane", "normal"])) for _ in range(n)]
+        if rep % 2:
+            pixel = float(rng.uniform(0.5, 2.0))
+    elif cls == "pow2_sizes":
+        sizes = [4, 5, 7, 8, 9, 15, 16, 17, 31, 32, 33, 63, 64]
+        H, W = int(rng.choice(sizes)), int(rng.choice(sizes))
+        if ctx.tier == "quick" and rep % 3 == 0:
+            H, W = int(rng.choice(sizes[:8])), int(rng.choice(sizes[:8]))
+        n = int(rng.choice([1, 2, 3, 4, 5, 7, 8, 9, 10, 10]))
+        kinds = [str(rng.choice(["normal", "impulse"])) for _ in range(n)]
+    elif cls == "history_inplace":
+        n = int(rng.integers(2, 9))
+        out_file = False
+        kinds = [str(rng.choice(["normal", "counts", "impulse"])) for _ in range(n)]
     if len(kinds) != n:
         kinds = [kinds[0]] * n
 
@@ -431,6 +545,33 @@ def gen(ctx, i, cls):
     elif cls == "n1" and rep % 4 == 0:
         doses = np.array([float(rng.choice([0.0, 300.0]))])
     doses = np.minimum(np.asarray(doses, dtype=np.float64), 300.0)
+    pairs = []                                                   # (j, j+1, identical images) with near-equal / repeated doses
+    planted = None
+    if cls == "dose_near_equal":
+        doses = rng.uniform(5.0, 290.0, n)
+        j = int(rng.integers(0, 2)) if n > 3 else 0
+        while j + 1 < n:
+            pairs.append(_plant_pair(rng, doses, j, [1, 1, 1, -1, -1, 0][int(rng.integers(0, 6))]))
+            j += 2 if rng.random() < 0.7 else 3
+        if n >= 4 and rep % 3 == 0:                              # a chain of three, each within 1e-5 of its predecessor
+            pairs = [_plant_pair(rng, doses, 0, 1), _plant_pair(rng, doses, 1, 1)] + [q for q in pairs if q[0] >= 3]
+        planted = "near_equal"
+    elif cls == "dose_tiny":
+        doses = np.array([TINY_POOL[int(rng.integers(0, len(TINY_POOL)))] if rng.random() < 0.7 else float(10.0 ** rng.uniform(-9, -2)) for _ in range(n)])
+        doses[int(rng.integers(0, n))] = [9e-4, 6e-4, 1e-6, 1e-9, float(np.nextafter(1e-3, 0))][rep % 5]
+        if rep % 3 == 0:
+            doses[int(rng.integers(0, n))] = float(rng.choice([0.0, float(rng.uniform(1, 300))]))
+        planted = "tiny"
+    elif dose_src == "array" and cls not in ("dose_unsorted", "dose_zero_mix") and not (cls == "n1" and rep % 4 == 0):
+        u = rng.random()
+        if u < 0.2 and n >= 2:
+            j = int(rng.integers(0, n - 1))
+            doses[j] = float(np.clip(doses[j], 1.0, 299.0))
+            pairs.append(_plant_pair(rng, doses, j, int(rng.choice([1, -1, 0]))))
+            planted = "near_equal"
+        elif u < 0.4:
+            doses[int(rng.integers(0, n))] = TINY_POOL[int(rng.integers(0, len(TINY_POOL)))]
+            planted = "tiny"
 
     dose_text = None
     csv_extra = None
@@ -438,34 +579,10 @@ def gen(ctx, i, cls):
         doses = _q64(doses)
     if dose_src in ("list_int", "array_int"):
         doses = np.round(doses)
-    if dose_src == "text":
-        style_t = rep % 4
-        rows = ["%.6f" % v for v in doses]
-        if style_t == 1:
-            rows = ["  " + r for r in rows]
-        if style_t == 3:
-            rows = [("%d" % v) if float(v).is_integer() else ("%.6f" % v) for v in doses]
-        dose_text = "\n".join(rows) + ("" if style_t == 2 else "\n")
-    elif dose_src == "mdoc":
+    if dose_src == "mdoc":
         dose_text, doses = _mdoc_text(rng, n)
-    elif dose_src == "csv":
-        with_removed = rep % 3 != 0
-        nrem = int(rng.integers(1, 4)) if with_removed and rep % 3 == 1 else 0
-        flags = np.array([False] * n + [True] * nrem)
-        flags = flags[rng.permutation(n + nrem)]
-        vals = np.zeros(n + nrem)
-        vals[~flags] = doses
-        vals[flags] = _q64(rng.uniform(0, 300, nrem))
-        hdr = ",TiltAngle,CorrectedDose" + (",Removed" if with_removed else "")
-        rows = [hdr]
-        for j in range(n + nrem):
-            rows.append("%d,%.2f,%.6f" % (j, -30 + 3.0 * j, vals[j]) + ((",%s" % bool(flags[j])) if with_removed else ""))
-        dose_text = "\n".join(rows) + "\n"
-        csv_extra = {"removed_rows": int(nrem), "removed_column": bool(with_removed)}
-    elif dose_src == "xml":
-        dose_text = ("<?xml version=\"1.0\" encoding=\"utf-8\"?>\n<TiltSeries AreAnglesInverted=\"False\" PlaneNormal=\"0, 0, 1\">\n  <Angles>\n"
-                     + "\n".join("%.2f" % (-30 + 3.0 * j) for j in range(n)) + "\n  </Angles>\n  <Dose>\n" + "\n".join("%.6f" % v for v in doses)
-                     + "\n  </Dose>\n</TiltSeries>\n")
+    elif dose_src in ("text", "csv", "xml"):
+        dose_text, csv_extra = _dose_text(rng, dose_src, doses, rep)
 
     # ---- images ----
     imgs, descr = [], []
@@ -473,6 +590,9 @@ def gen(ctx, i, cls):
         im, d = _image(rng, kinds[z], H, W, hostile_k)
         imgs.append(im)
         descr.append(d)
+    for (j, k, same) in pairs:
+        if same:
+            imgs[k], descr[k] = imgs[j].copy(), dict(descr[j])
     X = np.stack(imgs).astype(dtype)
     X2 = rng.normal(0.0, float(rng.uniform(0.5, 3)), (n, H, W)).astype(dtype)
     ab = [float(rng.uniform(-3, 3)), float(rng.uniform(-3, 3))]
@@ -482,6 +602,12 @@ def gen(ctx, i, cls):
         j = int(np.argmin(doses))
         delta[j] = 1.0
     d2 = rng.uniform(0, 1, n) * (300.0 - doses)
+    if cls == "dose_tiny" or (planted == "tiny" and rng.random() < 0.5):
+        # tiny steps: twice the same tiny dose must equal the doubled dose; a tiny extra dose must still attenuate more
+        d2 = np.where(doses <= 1.0, doses, d2)
+        delta = np.where(doses + 1e-2 <= 300.0, 10.0 ** rng.uniform(-8, -3, n), 0.0)
+        delta[int(rng.integers(0, n))] = float(rng.choice([9e-4, 6e-4, 1e-6, 1e-8]))
+        delta = np.where(doses + delta <= 300.0, delta, 0.0)
     rel_orders = [(str(rng.choice(ORDERS)), str(rng.choice(ORDERS))) for _ in range(6)]
     alt = [(a, b) for a in ORDERS for b in ORDERS if (a, b) != (in_order, out_order)]
     alt_orders = alt[int(rng.integers(0, len(alt)))]
@@ -489,11 +615,13 @@ def gen(ctx, i, cls):
     case = {"i": i, "cls": cls, "n": n, "H": H, "W": W, "dtype": dtype, "pixel": pixel, "doses": doses, "X": X, "X2": X2, "ab": ab,
             "delta": delta, "d2": d2, "descr": descr, "dose_src": dose_src, "dose_text": dose_text, "stack_src": stack_src,
             "out_file": out_file, "in_order": in_order, "out_order": out_order, "rel_orders": rel_orders, "alt_orders": alt_orders,
+            "pairs": pairs, "planted": planted,
             "nontrivial": bool(np.any((doses > 0) & vary))}
     case["summary"] = {"n": n, "H": H, "W": W, "dtype": dtype, "pixel": float(pixel), "pixel_type": type(pixel).__name__,
-                       "doses": [round(float(v), 6) for v in doses], "orders": [in_order, out_order], "content": [d["kind"] for d in descr],
+                       "doses": [float(v) for v in doses], "orders": [in_order, out_order], "content": [d["kind"] for d in descr],
                        "waves": [[d["ky"], d["kx"]] for d in descr if d["kind"] == "plane"][:4], "dose_source": dose_src,
-                       "csv": csv_extra, "stack_source": stack_src, "output_file": out_file,
+                       "csv": csv_extra, "stack_source": stack_src, "output_file": out_file, "planted": planted,
+                       "near_equal_pairs": [[j, k, same, repr(float(doses[j])), repr(float(doses[k]))] for (j, k, same) in pairs],
                        "first_pixels": [round(float(v), 5) for v in X[0].ravel()[:3]]}
     return case
 
@@ -652,6 +780,12 @@ def run_case(ctx, case):
                 ky, kx = np.unravel_index(int(np.argmax(grow)), grow.shape)
                 w = dict(info, image=z, what="a bin grew with more dose", dose=float(doses[z]), more=float(delta[z]),
                          bin_ky_kx=[int(orc.dft_index(H)[ky]), int(orc.dft_index(W)[kx])], amp=float(aY[z, ky, kx]), amp_more=float(aM[z, ky, kx]))
+            elif 1e-8 <= delta[z] < 1.0 and case["dtype"] == "float64" and case["descr"][z]["kind"] in WHITE:
+                pY, pM = _nondc_power(aY[z]), _nondc_power(aM[z])
+                if not pM < pY:
+                    okm = False
+                    w = dict(info, image=z, what="a small extra dose did not reduce the summed non-DC power", dose=repr(float(doses[z])),
+                             more=repr(float(delta[z])), power=pY, power_more=pM)
             elif delta[z] >= 1.0 and case["dtype"] == "float64":
                 exc = aY[z] > 1e-6 * max(float(aX[z].max()), 1e-300)
                 exc[0, 0] = False
@@ -663,6 +797,17 @@ def run_case(ctx, case):
                              bin_ky_kx=[int(orc.dft_index(H)[ky]), int(orc.dft_index(W)[kx])], amp=float(aY[z, ky, kx]), amp_more=float(aM[z, ky, kx]))
             ctx.check("monotone", okm, w)
 
+    # identical images at consecutive positions of ONE stack whose doses differ by a hair: the larger dose attenuates more
+    if case["dtype"] == "float64":
+        for (j, k, same) in case["pairs"]:
+            if not same or doses[j] == doses[k] or case["descr"][j]["kind"] not in WHITE:
+                continue
+            lo, hi = (j, k) if doses[j] < doses[k] else (k, j)
+            pl, ph = _nondc_power(aY[lo]), _nondc_power(aY[hi])
+            ctx.check("monotone", ph < pl, dict(info, what="identical images in one stack: the one with (slightly) more dose is not attenuated more",
+                                                images=[lo, hi], doses=[repr(float(doses[lo])), repr(float(doses[hi]))], power=[pl, ph],
+                                                outputs_identical=bool(np.array_equal(Y[lo], Y[hi]))))
+
     # composition: d1 then d2 == d1 + d2
     d2 = case["d2"]
     Y12 = _filter(ctx, case, Y.astype(X.dtype), d2, "dose_filter(second pass)", ro[4])
@@ -672,6 +817,51 @@ def run_case(ctx, case):
         ctx.check("composition", w is None, None if w is None else dict(info, d1=doses, d2=d2, **w))
     if case["stack_src"] == "file" and os.path.exists(stack_in):
         os.remove(stack_in)
+    if case["cls"] == "history_inplace":
+        _history(ctx, case)
+
+
+def _nondc_power(a):
+    """summed squared amplitude of all bins but the zero-frequency one"""
+    q = np.square(np.asarray(a, dtype=np.float64))
+    return float(q.sum() - q[0, 0])
+
+
+def _history(ctx, case):
+    """caller-owned stack, dose vector (and pixel size) mutated IN PLACE between calls on the same objects: every call is
+    judged by gain_stack on the values the objects hold at that moment and must equal a fresh call on copies."""
+    rng = ctx.rng(case["i"], 3)
+    io, oo = case["in_order"], case["out_order"]
+    n, rel = case["n"], REL[case["dtype"]]
+    A = orc.from_nyx(case["X"], io)                  # caller-owned, reused
+    D = np.array(case["doses"], dtype=np.float64)    # caller-owned, reused
+    p = float(case["pixel"])
+    for step in range(4):
+        if step == 1:
+            A *= float(rng.choice([-0.75, 1.5, 0.5]))
+            A[tuple(int(rng.integers(0, m)) for m in A.shape)] += 3.0
+            D[:] = np.minimum(D[::-1].copy() * (1.0 + float(10.0 ** rng.uniform(-8, -5.1))), 300.0)
+        elif step == 2:
+            An = orc.to_nyx(A, io)                  # a view: swapping two images writes through to A
+            j = int(rng.integers(0, n - 1))
+            tmp = An[j].copy()
+            An[j] = An[j + 1]
+            An[j + 1] = tmp
+            D[j + 1] = min(D[j] * (1.0 + float(rng.choice([1, -1])) * float(10.0 ** rng.uniform(-9, -5.1))), 300.0)
+            D[int(rng.integers(0, n))] = TINY_POOL[int(rng.integers(0, len(TINY_POOL)))]
+        elif step == 3:
+            p = float(np.clip(p * (1.0 + float(rng.choice([1e-6, -1e-6, 1e-3]))), 0.5, 10.0))
+        ok, r = ctx.call("dose_filter(history step %d)" % step, ctx.ts.dose_filter, A, p, D, input_order=io, output_order=oo)
+        if not ok or not isinstance(r, np.ndarray) or r.ndim != 3:
+            return
+        Y = np.array(orc.to_nyx(r, oo), dtype=np.float64)
+        Xnow = np.array(orc.to_nyx(A, io), copy=True)
+        ok, r2 = ctx.call("dose_filter(fresh copies)", ctx.ts.dose_filter, orc.from_nyx(Xnow, io), p, np.array(D, copy=True), input_order=io, output_order=oo)
+        if not ok or not isinstance(r2, np.ndarray) or r2.shape != r.shape:
+            return
+        tol = rel * np.abs(Xnow.astype(np.float64)).reshape(n, -1).max(axis=1) + 1e-300
+        w = _close(Y, orc.to_nyx(r2, oo), tol)
+        ctx.check("history_fresh", w is None, None if w is None else dict(H=case["H"], W=case["W"], n=n, step=step, pixel=p, doses=[repr(float(v)) for v in D], **w))
 
 
 # ---- exhaustive sub-space: every (H, W) shape ---------------------------------------------------------------
@@ -696,4 +886,84 @@ def extra(ctx):
                               {"H": H, "W": W, "image": z, "mean_in": float(X[z].mean()), "mean_out": float(Y[z].mean())})
             cnt += 1
     ctx.extra["exhaustive_shapes"] = cnt
+    _option_grid(ctx)
     ctx.extra["exhaustive_shapes_range"] = "every (H, W) with 4 <= H, W <= %d: impulse + noise image, judged by gain_stack/gain_single" % hi
+
+
+# ---- exhaustive sub-space: every combination of the call's options ---------------------------------------------
+DOSE_SOURCES = ["array", "list_float", "list_int", "array_int", "array_f32", "text", "mdoc", "csv", "xml"]
+
+
+def _option_grid(ctx):
+    """dose source x input order x output order x stack source x output file, each with three content variants (noise with
+    spread doses; axis-aligned plane waves with a near-equal dose pair; impulses with tiny doses).  Judged by gain_stack /
+    gain_file / gain_small_dose; every pair of options occurs together at least 24 times."""
+    cnt = 0
+    reps = 1 if ctx.tier == "quick" else 4
+    for variant in range(3 * reps):
+        for si, src in enumerate(DOSE_SOURCES):
+            for io in ORDERS:
+                for oo in ORDERS:
+                    for stack_src in ("array", "array2d", "file"):
+                        for out_file in (False, True):
+                            idx = cnt
+                            cnt += 1
+                            rng = ctx.rng(2 * 10 ** 6 + idx, 9)
+                            H, W = int(rng.integers(4, 13)), int(rng.integers(4, 13))
+                            n = 1 if stack_src == "array2d" else int(rng.integers(2, 5))
+                            dtype = "float32" if stack_src == "file" else "float64"
+                            p = float(rng.uniform(0.5, 10))
+                            doses = rng.uniform(0, 300, n)
+                            v = variant % 3
+                            if v == 0:
+                                X = rng.normal(0, 2, (n, H, W))
+                            elif v == 1:
+                                X = np.stack([orc.plane_wave(H, W, *[(0, 1), (1, 0), (0, -(W // 2)), ((H - 1) // 2, 0)][int(rng.integers(0, 4))],
+                                                             float(rng.uniform(0.3, 1.2)), float(rng.uniform(1, 5)), 0.0) for _ in range(n)])
+                                if n >= 2 and src in ("array", "list_float"):
+                                    doses[0] = float(rng.uniform(5, 290))
+                                    _plant_pair(rng, doses, 0, int(rng.choice([1, -1])))
+                            else:
+                                X = np.zeros((n, H, W))
+                                for z in range(n):
+                                    X[z, int(rng.integers(0, H)), int(rng.integers(0, W))] = float(rng.uniform(1, 10))
+                                if src in ("array", "list_float"):
+                                    doses[int(rng.integers(0, n))] = TINY_POOL[int(rng.integers(0, len(TINY_POOL)))]
+                            if src in ("text", "csv", "xml", "array_f32"):
+                                doses = _q64(doses)
+                            if src in ("list_int", "array_int"):
+                                doses = np.round(doses)
+                            text = None
+                            if src == "mdoc":
+                                text, doses = _mdoc_text(rng, n)
+                            elif src in ("text", "csv", "xml"):
+                                text, _ = _dose_text(rng, src, doses, idx)
+                            pseudo = {"i": 3 * 10 ** 6 + idx, "dose_src": src, "doses": doses, "dose_text": text}
+                            X = X.astype(dtype)
+                            ctx.cur = {"index": "extra", "cls": "option_grid", "summary": {"H": H, "W": W, "n": n, "pixel": p, "doses": [repr(float(d)) for d in doses],
+                                                                                         "orders": [io, oo], "dose_source": src, "stack_source": stack_src,
+                                                                                         "output_file": out_file, "variant": v}}
+                            if stack_src == "file":
+                                stack_in = os.path.join(ctx.scratch, "grid_%d.mrc" % idx)
+                                files.write_mrc_raw(stack_in, X.transpose(2, 1, 0), mode=2)
+                            elif stack_src == "array2d":
+                                stack_in = np.array(X[0].T if io == "xyz" else X[0], copy=True)
+                            else:
+                                stack_in = orc.from_nyx(X, io)
+                            kw = {"input_order": io, "output_order": oo}
+                            outp = os.path.join(ctx.scratch, "grid_out_%d.mrc" % idx) if out_file else None
+                            if outp:
+                                kw["output_file"] = outp
+                            dose_in = _dose_input(ctx, pseudo, "g")
+                            ok, r = ctx.call("dose_filter(option grid)", ctx.ts.dose_filter, stack_in, p, dose_in, **kw)
+                            if ok and isinstance(r, np.ndarray) and r.ndim in (2, 3) and orc.to_nyx(r, oo).shape == X.shape:
+                                Y = orc.to_nyx(r, oo)
+                                tol = REL[dtype] * np.abs(X.astype(np.float64)).reshape(n, -1).max(axis=1)
+                                for z in range(n):
+                                    ctx.check("dc_mean", abs(float(Y[z].mean(dtype=np.float64)) - float(X[z].mean(dtype=np.float64))) <= tol[z],
+                                              {"H": H, "W": W, "image": z, "grid": ctx.cur["summary"]})
+                            for f in (outp, stack_in if stack_src == "file" else None, dose_in if isinstance(dose_in, str) else None):
+                                if f and os.path.exists(f):
+                                    os.remove(f)
+    ctx.extra["option_grid_calls"] = cnt
+    ctx.extra["option_grid"] = "dose source (9) x input order (2) x output order (2) x stack source (3) x output file (2), %d content variants" % (3 * reps)
